@@ -46,7 +46,6 @@ var errExceptions = map[string]string{
 	"internal/dmap.(*DMap).atomicIncrDecr|internal/locker.(*Locker).Unlock":                                                                 "deferred release of the per-key mutex: nothing to hand the error to, logged",
 	"internal/dmap.(*DMap).getPut|internal/locker.(*Locker).Unlock":                                                                         "deferred release of the per-key mutex: nothing to hand the error to, logged",
 	"internal/dmap.(*DMap).leaseKey|internal/locker.(*Locker).Unlock":                                                                       "deferred release of the per-key mutex: nothing to hand the error to, logged",
-	"internal/dmap.(*DMap).loadCurrentAtomicInt|internal/util.ParseInt":                                                                     "a stored value that is not a number counts as zero (documented behaviour of Incr/Decr)",
 	"internal/dmap.(*DMap).lookupOnOwners|internal/dmap.(*DMap).lookupOnPreviousOwner":                                                      "a previous owner that cannot be read is logged and skipped; the read goes on with the other copies",
 	"internal/dmap.(*DMap).lookupOnReplicas|github.com/redis/go-redis/v9.(*Client).Process":                                                 "a backup that cannot be read is logged and skipped; the read goes on with the other copies and the read quorum counts what was obtained",
 	"internal/dmap.(*DMap).lookupOnReplicas|github.com/redis/go-redis/v9.(*StringCmd).Bytes":                                                "a backup that cannot be read is logged and skipped; the read goes on with the other copies and the read quorum counts what was obtained",
@@ -235,12 +234,12 @@ var callbackStops = map[string]struct {
 	n   int
 	why string
 }{
-	"internal/cluster/balancer.(*Balancer).scanPartition|sync.(*Map).Range":           {1, "the balancer gives up a partition for this pass when it meets an empty fragment or the routing table changed; the pass is repeated"},
-	"internal/dmap.(*DMap).evictKeyWithLRU|pkg/storage.(Engine).Range":                {1, "the LRU sample is complete"},
-	"internal/dmap.(*Service).evictKeys|sync.(*Map).Range":                            {1, "one fragment per DMap and partition is looked at per round"},
-	"internal/dmap.(*Service).scanFragmentForEviction|pkg/storage.(Engine).RangeHKey": {1, "the per-round key budget is used up"},
-	"internal/kvstore.(*KVStore).evictTable|internal/kvstore/table.(*Table).Range":    {4, "an error ends the batch (it is returned), a full head table restarts it, and a batch moves at most 1000 entries; compaction reports 'not done' and is called again"},
-	"internal/pubsub.(*PubSub).Publish|github.com/tidwall/btree.(*BTree).Ascend":      {1, "the ordered index has left the entries of this channel"},
+	"internal/cluster/balancer.(*Balancer).scanPartition|sync.(*Map).Range":            {1, "the balancer gives up a partition for this pass when it meets an empty fragment or the routing table changed; the pass is repeated"},
+	"internal/dmap.(*DMap).evictKeyWithLRU|pkg/storage.(Engine).Range":                 {1, "the LRU sample is complete"},
+	"internal/dmap.(*Service).evictKeys|sync.(*Map).Range":                             {1, "one fragment per DMap and partition is looked at per round"},
+	"internal/dmap.(*Service).scanFragmentForEviction|pkg/storage.(Engine).RangeHKey":  {1, "the per-round key budget is used up"},
+	"internal/kvstore.(*KVStore).evictTable|internal/kvstore/table.(*Table).RangeHKey": {4, "an error ends the batch (it is returned), a full head table restarts it, and a batch moves at most 1000 entries; compaction reports 'not done' and is called again"},
+	"internal/pubsub.(*PubSub).Publish|github.com/tidwall/btree.(*BTree).Ascend":       {1, "the ordered index has left the entries of this channel"},
 }
 
 // rangeCallbacksRunToTheEnd: work that is driven through a Range-style callback — moving
